@@ -103,6 +103,14 @@ const TILES_2D: &[&[usize]] = &[
     &[128, 32, 8],
     &[6, 3, 1],
     &[2, 1],
+    // leaf tiles of several thousand pixels (added after seeded change
+    // C06-u): whatever batches, chunks or caps the per-pixel evaluation of a
+    // leaf is cut into, a leaf of 5 184 .. 16 384 pixels crosses it, also at a
+    // size that divides no power of two
+    &[96],
+    &[72],
+    &[200, 100],
+    &[128],
 ];
 
 const TILES_3D: &[&[usize]] = &[
@@ -127,6 +135,9 @@ const TILES_3D: &[&[usize]] = &[
     &[10],
     &[24, 12],
     &[9, 3],
+    // leaves of 8 000 and 13 824 voxels
+    &[20],
+    &[24],
 ];
 
 fn gen_mat3(ch: &mut Chooser, allow_persp: bool, extent: f32) -> Matrix3<f32> {
@@ -295,10 +306,13 @@ pub fn gen_work(ch: &mut Chooser, kind: Kind, tier: Tier) -> Work {
                 } else {
                     100 + ch.choose("h_large", 221)
                 };
-                let tiles = match ch.choose("tiles_large", 4) {
+                let tiles = match ch.choose("tiles_large", 7) {
                     0 => None,
                     1 => Some(vec![64, 16, 4]),
                     2 => Some(vec![128, 32, 8]),
+                    3 => Some(vec![96]),
+                    4 => Some(vec![200, 100]),
+                    5 => Some(vec![192, 96]),
                     _ => Some(vec![32, 8, 2]),
                 };
                 (w, h, 0, tiles, 0)
@@ -1587,6 +1601,97 @@ fn dual_gradient(
 ////////////////////////////////////////////////////////////////////////////////
 // C09: schedules, pool sizes and cancellation are unobservable
 
+/// The deterministic image effects of fidget-raster (`denoise_normals`,
+/// `apply_shading` without SSAO, whose kernel is random by design) fan out over
+/// image rows with rayon when a pool is supplied (`Image::apply_effect`).  The
+/// fan-out is over a mutable slice, which is not behind the `SimVec` seam, so
+/// the pools are real ones (1, 2 and 5 threads): every pixel is a pure function
+/// of the source image, so on a tree where the property holds the result
+/// cannot depend on the schedule, and any pool-dependent difference is
+/// deterministic too (added after seeded change C09-ag).
+fn effects_pool_independence(
+    st: &Shared,
+    rep: &mut RunReport,
+    work: &Work,
+    px: &[[u32; 4]],
+) {
+    use fidget_raster::effects;
+    let size = VoxelSize::new(work.w, work.h, work.d);
+    let mut img = voxel::Image::new(size);
+    for (k, p) in px.iter().enumerate() {
+        img[k] = voxel::GeometryPixel {
+            depth: p[0],
+            normal: [
+                f32::from_bits(p[1]),
+                f32::from_bits(p[2]),
+                f32::from_bits(p[3]),
+            ],
+        };
+    }
+    let run = |threads: Option<&ThreadPool>| -> Result<(Vec<[u32; 4]>, Vec<[u8; 3]>), String> {
+        rt::catch(|| {
+            let d = effects::denoise_normals(&img, threads);
+            let s = effects::apply_shading(&img, false, threads);
+            (
+                d.iter()
+                    .map(|p| {
+                        [
+                            p.depth,
+                            p.normal[0].to_bits(),
+                            p.normal[1].to_bits(),
+                            p.normal[2].to_bits(),
+                        ]
+                    })
+                    .collect(),
+                s.iter().copied().collect(),
+            )
+        })
+    };
+    let reference = run(None);
+    rep.count("op.effects_with_and_without_pools", 1);
+    for k in [1usize, 2, 5] {
+        let pool = rayon::ThreadPoolBuilder::new()
+            .num_threads(k)
+            .build()
+            .unwrap();
+        let pool = ThreadPool::Custom(pool);
+        let got = run(Some(&pool));
+        rep.checked_oracle += 1;
+        let same = match (&reference, &got) {
+            (Ok(a), Ok(b)) => a == b,
+            (Err(_), Err(_)) => true,
+            _ => false,
+        };
+        if !same {
+            let what = match (&reference, &got) {
+                (Ok(a), Ok(b)) => format!(
+                    "{} of {} denoised pixels and {} of {} shaded pixels differ",
+                    a.0.iter().zip(&b.0).filter(|(x, y)| x != y).count(),
+                    a.0.len(),
+                    a.1.iter().zip(&b.1).filter(|(x, y)| x != y).count(),
+                    a.1.len()
+                ),
+                (a, b) => format!("no pool: {:?}, pool: {:?}", a.as_ref().err(), b.as_ref().err()),
+            };
+            rep.violate(
+                "C09",
+                "effects_pool_differs_from_sequential",
+                format!(
+                    "denoise_normals / apply_shading of the {}x{} render on a real pool of {k}: {what}",
+                    work.w, work.h
+                ),
+            );
+            break;
+        }
+    }
+    if let Ok((d, s)) = &reference {
+        let h = d.iter().fold(s.len() as u64, |h, p| {
+            crate::chooser::mix(h, p[0] as u64 ^ ((p[1] as u64) << 32))
+        });
+        st.borrow_mut().log("c09_effects", h, 0);
+    }
+}
+
 pub fn run_c09(st: &Shared, tier: Tier) -> RunReport {
     let mut rep = RunReport::default();
     let kind_choice = st.borrow_mut().ch.choose("kind", 4);
@@ -1634,6 +1739,13 @@ pub fn run_c09(st: &Shared, tier: Tier) -> RunReport {
     rep.steps += ref_info.items + ref_info.polls;
     account_schedule(&mut rep, &ref_info, None, &work);
     st.borrow_mut().log_digest("c09_ref", reference.digest());
+
+    // post-processing of the rendered 3-D image takes a thread pool too
+    if let Out::D3(px) = &reference {
+        if st.borrow_mut().ch.odds("effects_on_pools", 1, 3) {
+            effects_pool_independence(st, &mut rep, &work, px);
+        }
+    }
 
     // the caller's previous call on this thread, after the reference was taken
     predecessor_call(st, &mut rep, &work);
